@@ -289,6 +289,7 @@ def main():
                       solver_s=r.get('solver_s'), backend=r['backend'], functions_under_contract=u.get('under_contract', []),
                       translated_functions=len(r['functions']), assumed_contracts=r['boundary'], obligations=0, discharged=0)
             if r.get('cross_check'): pu['cross_check'] = r['cross_check']
+            pu['translated_cocls_functions'] = sorted(set(f['name'] for f in r['functions'] if 'cocls' in (f.get('src') or '') or f['name'].startswith('cocls::') or ' cocls::' in f['name']))[:400]
             if r['status'] != 'ok':
                 undecided.append((u, r)); per_unit.append(pu); continue
             sentinel_seen = sentinel_failed = 0
